@@ -473,9 +473,16 @@ func (g *Gen) security() []any {
 	for i := 0; i < k; i++ {
 		req := M{}
 		for j, kk := 0, g.n(3); j < kk; j++ {
-			scopes := []any{}
-			for s, ks := 0, g.n(3); s < ks; s++ {
-				scopes = append(scopes, g.pick([]string{"read", "write", "admin"}))
+			var scopes any
+			if g.p(0.15) {
+				scopes = nil // `"name": null`: loads as a nil scope list
+				g.hit("security:null-scopes")
+			} else {
+				sc := []any{}
+				for s, ks := 0, g.n(3); s < ks; s++ {
+					sc = append(sc, g.pick([]string{"read", "write", "admin"}))
+				}
+				scopes = sc
 			}
 			req[g.pick(secNames)] = scopes
 		}
